@@ -190,9 +190,14 @@ CDEF = """
 """
 
 
+DECAYED = {"void(*)(int[7][0], int[9][0])": "void(*)(int(*)[0], int(*)[0])",
+           "void(*)(int[2][0], int[4][0])": "void(*)(int(*)[0], int(*)[0])"}
+
+
 def norm(x):
     """canonical spelling of a type string / cname for the request-vs-result comparison"""
     import re
+    x = DECAYED.get(x, x)
     x = re.sub(r"\s+", "", x.replace("s_t", "struct s")).replace("(void)", "()")
     if x.startswith("fn_t"):
         x = "int(*" + x[4:] + ")(int,char*)"
